@@ -331,15 +331,6 @@ def xNet : Net := { id := "n", notes := some "notes", temperature := some "32deg
                     eprojs := [xEProj], cprojs := [xCProj], ilists := [xIL] }
 def xDoc : Doc := { id := "d", top := xTop, nets := [xNet] }
 
-theorem forall_one {α : Type} {P : α → Prop} {a : α} (h : P a) : ∀ x ∈ [a], P x := by
-  intro x hx; simp at hx; rw [hx]; exact h
-theorem forall_two {α : Type} {P : α → Prop} {a b : α} (ha : P a) (hb : P b) : ∀ x ∈ [a, b], P x := by
-  intro x hx; simp at hx; rcases hx with rfl | rfl <;> assumption
-
-theorem exact_id (n : Int) : Exact id n := rfl
-
-theorem connExact_id (c : Conn) : ConnExact id c := ⟨rfl, rfl, rfl, rfl⟩
-
 theorem xDoc_supported : Supported cfgFixed xDoc := by
   refine Or.inr ⟨xNet, rfl, ?_⟩
   refine { noSyn := rfl, noExp := rfl, pops := ?_, names := by decide +kernel, kPop := ?_, kProj := ?_, kEProj := ?_,
